@@ -46,6 +46,18 @@ def scenarios(rng, tier):
             elif r < 0.88: s.flow(0, generic(9, 0, M, M, own, own))
             elif r < 0.93: s.flow(0, query(M, own, seq=rng.randrange(1, 9)))
             else: s.flow(0, generic(rng.randrange(256), rng.randrange(3), M, M, own, own, body=bytes(rng.randrange(256) for _ in range(8))))
+    # a round ends (table emptied) right after a periodic Hello and the next round starts within the same second
+    for k in range(20 if tier == 'quick' else 600):
+        s.start('round_%d' % k); s.op('mk 0'); s.op('adv', 1000 + rng.randrange(4000))
+        M = mac(1); step = rng.choice([50, 100, 100, 20])
+        for rnd in range(3):
+            s.flow(0, discover(M, gen=1 + rnd, seq=1 + rnd, stations=[mac(9)] if rng.random() < 0.85 else []))   # not acknowledged: the session stays incomplete
+            for i in range(rng.choice([2, 3, 5, 12])): s.op('adv', step); s.op('tick 0')
+            r = rng.random()
+            if r < 0.5: s.flow(0, reset(M, rdst=BCAST))
+            elif r < 0.75: s.op('st_clear 0')
+            else: s.op('adv', 61000)
+            for i in range(rng.choice([1, 1, 2, 4])): s.op('adv', rng.choice([0, 20, 100])); s.op('tick 0')
     return [(s.text(), {})]
 KEYS = ['map', 'ctc', 'chg', 'inact', 'sess', 'enum', 'ni', 'r', 'begun', 'hts', 'bts', 'ltx', 'cnt', 'allc', 'empty']
 def hellos(blk):
